@@ -11,27 +11,34 @@ CONSTANTS OpsPool,      \* set of operation records that may be issued (each at 
           MaxOps, FeeOf, MinAda
 VARIABLES issued, pending, st, phase
 vars == <<issued, pending, st, phase>>
-\* st: the builder's accounting state
-Zero0 == [inC |-> 0, inA |-> 0, outC |-> 0, outA |-> 0, dep |-> 0, ref |-> 0, wd |-> 0, mintP |-> 0, mintN |-> 0, don |-> 0,
+\* st: the builder's accounting state. Certificates and the mint are HELD AS A WHOLE by the builder: set_certs_builder /
+\* set_mint_builder replace what was there (Deposit / Refund and Mint / Burn below), while the older entry point
+\* add_mint_asset_and_output works on the mint the builder holds and adds an output carrying the minted quantity (MintOut).
+\* mint is the signed net quantity of the one asset.
+Zero0 == [inC |-> 0, inA |-> 0, outC |-> 0, outA |-> 0, dep |-> 0, ref |-> 0, wd |-> 0, mint |-> 0, don |-> 0,
           fee |-> -1, chC |-> 0, chA |-> 0, burnt |-> 0]
 Init == /\ issued = <<>> /\ pending \in {S \in SUBSET OpsPool : Cardinality(S) <= MaxOps /\ \E o \in S : o.op = "AddInput"} /\ st = Zero0 /\ phase = "ops"
 Apply(s, o) ==
   CASE o.op = "AddInput"  -> [s EXCEPT !.inC = @ + o.c, !.inA = @ + o.a]
     [] o.op = "AddOutput" -> [s EXCEPT !.outC = @ + o.c, !.outA = @ + o.a]
-    [] o.op = "Deposit"   -> [s EXCEPT !.dep = @ + o.c]
-    [] o.op = "Refund"    -> [s EXCEPT !.ref = @ + o.c]
-    [] o.op = "Withdraw"  -> [s EXCEPT !.wd = @ + o.c]
-    [] o.op = "Mint"      -> [s EXCEPT !.mintP = @ + o.a]
-    [] o.op = "Burn"      -> [s EXCEPT !.mintN = @ + o.a]
-    [] o.op = "Donate"    -> [s EXCEPT !.don = @ + o.c]
+    [] o.op = "Deposit"   -> [s EXCEPT !.dep = o.c, !.ref = 0]
+    [] o.op = "Refund"    -> [s EXCEPT !.ref = o.c, !.dep = 0]
+    [] o.op = "Withdraw"  -> [s EXCEPT !.wd = o.c]
+    [] o.op = "Mint"      -> [s EXCEPT !.mint = o.a]
+    [] o.op = "Burn"      -> [s EXCEPT !.mint = 0 - o.a]
+    [] o.op = "MintOut"   -> [s EXCEPT !.mint = @ + o.a, !.outC = @ + o.c, !.outA = @ + o.a]
+    [] o.op = "Donate"    -> [s EXCEPT !.don = o.c]
     [] OTHER -> s
+\* operations that write the same held part do not commute
+Part(o) == CASE o.op \in {"Deposit", "Refund"} -> "certs" [] o.op \in {"Mint", "Burn", "MintOut"} -> "mint" [] OTHER -> "none"
+Commuting(S) == \A x, y \in S : x # y /\ Part(x) = Part(y) => Part(x) = "none"
 Issue == /\ phase = "ops" /\ pending # {}
          /\ \E o \in pending : issued' = Append(issued, o) /\ pending' = pending \ {o} /\ st' = Apply(st, o)
          /\ UNCHANGED phase
 TotalInC(s) == s.inC + s.wd + s.ref
 TotalOutC(s) == s.outC + s.dep + s.don
-TotalInA(s) == s.inA + s.mintP
-TotalOutA(s) == s.outA + s.mintN
+TotalInA(s) == s.inA + (IF s.mint > 0 THEN s.mint ELSE 0)
+TotalOutA(s) == s.outA + (IF s.mint < 0 THEN 0 - s.mint ELSE 0)
 \* add_change_if_needed: change = total input - total output - fee; asset change needs MinAda; small leftovers are burnt into the fee
 Balance == /\ phase = "ops" /\ pending = {}
            /\ LET cC == TotalInC(st) - TotalOutC(st) cA == TotalInA(st) - TotalOutA(st) IN
@@ -48,7 +55,12 @@ Balanced == phase = "balanced" =>
    /\ TotalInA(st) = TotalOutA(st) + st.chA
    /\ st.fee >= FeeOf
    /\ (st.chC > 0 => st.chC >= MinAda)
-\* the order of issuing the operations does not matter for the accounting
-OrderIrrelevant == phase = "ops" /\ pending = {} =>
+\* the order of issuing the operations does not matter for the accounting - as long as no two of them write the same held part
+OrderIrrelevant == phase = "ops" /\ pending = {} /\ Commuting({issued[i] : i \in 1..Len(issued)}) =>
    st = LET RECURSIVE F(_,_) F(S, s) == IF S = {} THEN s ELSE LET o == CHOOSE x \in S : TRUE IN F(S \ {o}, Apply(s, o)) IN F({issued[i] : i \in 1..Len(issued)}, Zero0)
+\* ... and where they do, the last writer wins (what the replaced call contributed is gone, not added)
+LastWriterWins == phase = "ops" /\ pending = {} =>
+   /\ (\E i \in 1..Len(issued) : issued[i].op \in {"Deposit", "Refund"}) =>
+        LET j == CHOOSE i \in 1..Len(issued) : issued[i].op \in {"Deposit", "Refund"} /\ \A k \in (i+1)..Len(issued) : issued[k].op \notin {"Deposit", "Refund"} IN
+        st.dep + st.ref = issued[j].c
 ====
